@@ -177,11 +177,17 @@ def _check_bisect(case):
     # vector form: whole vector, every single query, a sub-vector
     vec_sets = [list(range(len(qs)))] + [[i] for i in range(len(qs))] + [list(range(0, len(qs), 2))]
     whole = [i for i in range(len(qs)) if float(qs[i]) == int(qs[i]) and abs(qs[i]) < 2 ** 40]
+    everything = vec_sets[0]
     vec_sets = [(ix, np.float64) for ix in vec_sets] + ([(whole, np.int64)] if whole else [])   # whole-number queries also as an integer array
+    # query arrays narrower than float64 (a float32 / float16 array of times asked of a float64 axis): the question is then the
+    # one about the ROUNDED queries, which are exact float64 numbers - the axis must not be rounded to meet them
+    vec_sets += [(everything, np.float32), (everything, np.float16)]
     for idxs, qdtype in vec_sets:
         if not idxs:
             continue
-        qv = np.asarray([qs[i] for i in idxs], dtype=qdtype)
+        with np.errstate(over="ignore"):
+            qv = np.asarray([qs[i] for i in idxs], dtype=qdtype)
+        narrow = qdtype in (np.float32, np.float16)
         try:
             gv = deutil.search_bisection_vec(arr, qv)
             gv = [int(g) for g in np.asarray(gv).reshape(-1)]
@@ -190,9 +196,9 @@ def _check_bisect(case):
         except Exception as e:
             viols.append(V("bisect_vec_raises", "search_bisection_vec({}, {}) raised {!r}".format(ref_arr, qv.tolist(), e), exc_sig(e)))
             continue
-        for i, g in zip(idxs, gv):
-            want = min(bisect.bisect_left(ref_arr, float(qs[i])), len(ref_arr) - 1)
-            if g != want or (got_scalar[i] is not None and g != got_scalar[i]):
+        for pos, (i, g) in enumerate(zip(idxs, gv)):
+            want = min(bisect.bisect_left(ref_arr, float(qs[i]) if not narrow else float(qv[pos])), len(ref_arr) - 1)
+            if g != want or (not narrow and got_scalar[i] is not None and g != got_scalar[i]):
                 viols.append(V("bisect_vec", "search_bisection_vec({}, {})[{}] = {}, scalar search gives {}, reference {}".format(
                     ref_arr, qv.tolist(), idxs.index(i), g, got_scalar[i], want), "len{}".format(min(len(ref_arr), 3))))
                 break
